@@ -21,4 +21,3 @@ pub assume_specification [f32::is_nan](f: f32) -> (r: bool) ensures r == f32_is_
 pub assume_specification [f32::is_infinite](f: f32) -> (r: bool) ensures r == f32_is_inf_bits(f32_bits(f));
 
 /// `i128::abs` overflows (panics in debug, wraps in release) exactly for i128::MIN
-pub assume_specification [i128::abs](x: i128) -> (r: i128) requires x > i128::MIN ensures r as int == abs_int(x as int);
